@@ -1,9 +1,10 @@
 from checks import finite
+from checks.e3num import run_e3num
 from checks.generic import run_components
 
-ASSUME = ["exactness of basix' quadrature rules and UFL's degree estimation are external",
+ASSUME = ["E3 numeric (kernel executed on pseudo-random affine simplex data vs an independent UFL/basix reference) is bounded: corpus forms, fixed seeds, rtol 1e-9", "exactness of basix' quadrature rules and UFL's degree estimation are external",
           "E2 (rule-consistency of every contribution to A) is bounded over programs by the corpus"]
 
 
 def run(tier, seed):
-    return run_components("C11", tier, seed, ["e1", finite.c11_rule_selection, "e2"], ASSUME, ["kernelvc (E2)"])
+    return run_components("C11", tier, seed, ["e1", finite.c11_rule_selection, "e2", run_e3num], ASSUME, ["kernelvc (E2)"])
